@@ -1,3 +1,4 @@
+mod crash;
 mod dbx;
 mod enc;
 mod hist;
@@ -8,6 +9,7 @@ fn main() {
     let args = Args::from_env();
     match args.cmd().as_str() {
         "hist" => hist::run(&args),
+        "crash" => crash::run(&args),
         other => {
             eprintln!("unknown subcommand {other:?}");
             std::process::exit(2);
